@@ -98,6 +98,37 @@ def worker(m):
     return out
 
 
+F9_KEY = "F9:mutually-abutting-ends"
+
+
+def mutual_abutment(m) -> bool:
+    """the trigger condition of known finding F9: two traces each have an end within the snap threshold of the OTHER trace
+    (validation accepts both ends as snapped; the snapping pass then moves each onto the other). Planted features avoid it, but an
+    overshoot along a slanted trace shortens the target's stub below the threshold now and then."""
+    from shapely.geometry import LineString, Point
+
+    ls = [LineString(g) for g in m["geoms"]]
+    t = m["t"] * (1 + 1e-9)
+
+    def near(i, j):
+        """ends of i within the threshold of trace j, each with its nearest point on j"""
+        out = []
+        for e in (m["geoms"][i][0], m["geoms"][i][-1]):
+            p = Point(e)
+            if p.distance(ls[j]) < t:
+                out.append((p, ls[j].interpolate(ls[j].project(p))))
+        return out
+
+    for i in range(len(ls)):
+        for j in range(i + 1, len(ls)):
+            for ei, ni in near(i, j):
+                for ej, nj in near(j, i):
+                    # two ends that simply face each other (each is the other's nearest point) are an ordinary end-to-end snap, not F9
+                    if not (ni.distance(ej) < 1e-3 * m["t"] and nj.distance(ei) < 1e-3 * m["t"]):
+                        return True
+    return False
+
+
 def s03_accepted(ctx):
     res = StreamResult("S03-accepted", rule="maps of 1..3 isolated near-threshold features (end near a trace interior incl. close to the target's tip, end near an end, end "
                        "near the area boundary; gaps 0..12 x snap, under- and overshoot, 8 orientations incl. axis-parallel, offsets to UTM scale, thresholds 1e-3..1e-1), "
@@ -110,6 +141,8 @@ def s03_accepted(ctx):
     for m, o in zip(maps, outs):
         res.evaluations += 1
         case = {"stream": "S03-accepted", **m}
+        if o.get("accepted") and (o.get("raised") or o.get("problems")) and mutual_abutment(m):
+            case["finding_key"] = F9_KEY
         if "validation" in o:
             res.disagreements.append(Disagreement("S03-accepted", case, "validation completes", o["validation"], None, "validation raised (see C09)"))
             continue
